@@ -85,7 +85,8 @@ theorem applyFPs_cons (fs : FS) (cfg : Cfg) (entry : Series.Entry) (fp : PFilePa
 /-- all file patches of one patch -/
 theorem applyFilePatches_sim {fs : FS} {cfg : Cfg} {i : Nat} {entry : Series.Entry} (fps : List PFilePatch) :
     ∀ (st : St) (t : ATree) (af ok : Bool) (rejs : List (Bytes × Bytes)),
-      SameTree fs (ofMem st.mem) t → MemDE st.mem → (∀ fp ∈ fps, fp.WFlen) → af = !ok →
+      SameTree fs (ofMem st.mem) t → MemDE st.mem → (∀ fp ∈ fps, fp.WFlen) →
+      (∀ fp ∈ fps, fp.rename = true → fp.new.isSome) → af = !ok →
       (∀ st' af', applyFilePatches st fs cfg i entry fps af = .ok (st', af') →
         ∃ t' ok' L, applyFPs fs cfg entry fps t ok rejs = .ok (t', ok', rejsOf L ++ rejs) ∧ af' = !ok' ∧
           SameTree fs (ofMem st'.mem) t' ∧ MemDE st'.mem ∧ st'.applied = L ++ st.applied ∧
@@ -94,7 +95,7 @@ theorem applyFilePatches_sim {fs : FS} {cfg : Cfg} {i : Nat} {entry : Series.Ent
         applyFPs fs cfg entry fps t ok rejs = .error e) := by
   induction fps with
   | nil =>
-    intro st t af ok rejs hs hde _ haf
+    intro st t af ok rejs hs hde _ _ haf
     constructor
     · intro st' af' h
       unfold applyFilePatches at h
@@ -104,9 +105,11 @@ theorem applyFilePatches_sim {fs : FS} {cfg : Cfg} {i : Nat} {entry : Series.Ent
       unfold applyFilePatches at h
       cases h
   | cons fp fps ih =>
-    intro st t af ok rejs hs hde hw haf
+    intro st t af ok rejs hs hde hw hrn haf
     have hwfp := hw fp (by simp)
     have hwfps : ∀ fp' ∈ fps, fp'.WFlen := fun fp' h' => hw fp' (by simp [h'])
+    have hrnfp := hrn fp (by simp)
+    have hrnfps : ∀ fp' ∈ fps, fp'.rename = true → fp'.new.isSome := fun fp' h' => hrn fp' (by simp [h'])
     constructor
     · intro st' af' h
       unfold applyFilePatches at h
@@ -118,7 +121,7 @@ theorem applyFilePatches_sim {fs : FS} {cfg : Cfg} {i : Nat} {entry : Series.Ent
           rw [haf, hb]; cases ok <;> cases r.ok <;> rfl
         obtain ⟨t', ok', L2, hfps, haf', hs', hde', happ2, hidx2, hundo2⟩ :=
           (ih st1 r.tree (af || !b) (ok && r.ok) (r.rej.toList ++ rejs)
-            hs1 hde1 hwfps haf1).1 st' af' h
+            hs1 hde1 hwfps hrnfps haf1).1 st' af' h
         refine ⟨t', ok', L2 ++ L1, ?_, haf', hs', hde', ?_, ?_, Chain.append hundo1 hundo2⟩
         · rw [applyFPs_cons, hr]
           simp only
@@ -134,13 +137,13 @@ theorem applyFilePatches_sim {fs : FS} {cfg : Cfg} {i : Nat} {entry : Series.Ent
       split at h
       · rename_i e' h1
         cases h
-        rw [applyFPs_cons, applyOne_err_sim hs h1]
+        rw [applyFPs_cons, applyOne_err_sim hs hde hrnfp h1]
       · rename_i st1 b h1
         obtain ⟨r, hr, hb, hs1, hde1, L1, happ1, hidx1, hundo1, hrej1⟩ := applyOne_ok_sim hs hde hwfp h1
         have haf1 : (af || !b) = !(ok && r.ok) := by
           rw [haf, hb]; cases ok <;> cases r.ok <;> rfl
         have := (ih st1 r.tree (af || !b) (ok && r.ok) (r.rej.toList ++ rejs)
-            hs1 hde1 hwfps haf1).2 e h
+            hs1 hde1 hwfps hrnfps haf1).2 e h
         rw [applyFPs_cons, hr]
         exact this
 
@@ -148,6 +151,11 @@ theorem applyFilePatches_sim {fs : FS} {cfg : Cfg} {i : Nat} {entry : Series.Ent
 theorem parsed_wflen {bytes : Bytes} {strip : Nat} {wh : Bool} {patch : Patch}
     (h : parsePatch bytes strip wh = .ok patch) : ∀ fp ∈ patch.fps, fp.WFlen :=
   fun fp hfp hk hhk => ((C11_wf bytes strip wh patch h fp hfp).2.2.2 hk hhk).1.wflen
+
+/-- parsed renaming patches have a new name -/
+theorem parsed_rename_new {bytes : Bytes} {strip : Nat} {wh : Bool} {patch : Patch}
+    (h : parsePatch bytes strip wh = .ok patch) : ∀ fp ∈ patch.fps, fp.rename = true → fp.new.isSome :=
+  fun fp hfp hr => ((C11_wf bytes strip wh patch h fp hfp).2.2.1 hr).2
 
 /-- the range -/
 theorem applyLoop_sim (fs : FS) (cfg : Cfg) (range : List Series.Entry) :
@@ -181,7 +189,7 @@ theorem applyLoop_sim (fs : FS) (cfg : Cfg) (range : List Series.Entry) :
           simp only
           have hw := parsed_wflen hpp
           have hsim := applyFilePatches_sim (fs := fs) (cfg := cfg) (i := k) (entry := entry) patch.fps
-            st t false true [] hs hde hw rfl
+            st t false true [] hs hde hw (parsed_rename_new hpp) rfl
           cases happ : applyFilePatches st fs cfg k entry patch.fps false with
           | error e =>
             rw [hsim.2 e happ]
